@@ -278,6 +278,38 @@ def run_xo(name, tier, res, seed):
             bad(r[0], r[1], f, cid, r[2])
             continue
         res.states += 1
+        # objects that have been handed to a compiled kernel BEFORE they are pickled: a kernel called with the unpickled object
+        # afterwards must receive the address of the unpickled object's own bytes
+        if ctxkind.endswith("-built") and t[0] in ("St", "A"):
+            import xobjects as xo
+
+            res.transitions += 2
+            res.events["kernel-before-and-after"] += 1
+            try:
+                kctx = context_of_kind(ctxkind)
+                kname = "c20_addr_" + cls.__name__
+                if kname not in kctx.kernels:
+                    kctx.add_kernels(sources=["int64_t %s(%s obj){ return (int64_t)(size_t) obj; }" % (kname, cls.__name__)],
+                                     kernels={kname: xo.Kernel(args=[xo.Arg(cls, name="obj")], ret=xo.Arg(xo.Int64), c_name=kname)}, extra_compile_args=("-O0", "-w"), extra_link_args=())
+                addr = lambda o_: int(np.frombuffer(o_._buffer.buffer, dtype="int8").ctypes.data) + int(o_._offset)
+                del vals[:]
+                objs = make_group(group, make, make_at)
+                r = None
+                for o_ in objs:
+                    if int(kctx.kernels[kname](obj=o_)) != addr(o_):
+                        r = ("C20.usable", "kernel-receives-wrong-address", "original object, before pickling")
+                new = pickle.loads(pickle.dumps(objs, protocol=proto))
+                for k_, n_ in enumerate(new):
+                    got = int(kctx.kernels[kname](obj=n_))
+                    if r is None and got != addr(n_):
+                        r = ("C20.independent" if got == addr(objs[k_]) else "C20.usable", "kernel-on-unpickled-object-receives-another-address",
+                             "object %d: the kernel received %#x, the unpickled object's bytes are at %#x (the original's at %#x)" % (k_, got, addr(n_), addr(objs[k_])))
+                if r:
+                    bad(r[0], r[1], dict(f, history="kernel-before-pickling"), dict(cid, history="kernel-before-pickling"), r[2])
+                    continue
+            except Exception as e:
+                bad("C20.usable", "kernel-call-raises:" + common.exc_failure(e), dict(f, history="kernel-before-pickling"), dict(cid, history="kernel-before-pickling"), repr(e)[-600:])
+                continue
         # the same pickle loaded TWICE in this process (the first result kept and written), and a second generation (an
         # unpickled object pickled again): every load is an object of its own
         res.transitions += 3
